@@ -220,3 +220,30 @@ def pending_call_blocks_sequence(ctx, F):
     mk = hr.calls_to("ExecutionCtx::make_subgraph_incomplete")
     ctx.require(len(mk) >= 1 and all(hr.must_pass(0, [m.bb for m in mk]) for _ in (0,)), "R-PAIR", "incomplete:forwarded", "handle_remote_call always marks the subgraph incomplete",
                 "handle_remote_call can return without marking the subgraph incomplete")
+
+
+def result_recorded_once(ctx, F):
+    """C05 / C02: a host result consumed in this run leaves exactly one state in the trace — Executed on success, Failed on
+    either failure path (service error, unparsable result) — so the produced data contains everything executed."""
+    # update_state_with_service_result: every Ok path records exactly one meet_call_end
+    u = F.fn("prev_result_handler::update_state_with_service_result")
+    nOk = 0
+    bad = []
+    for st in lib.enumerate_paths(u, max_paths=60000):
+        if lib.path_result(u, st) == "Ok":
+            nOk += 1
+            n = len(lib.path_calls(st, "TraceHandler::meet_call_end"))
+            if n != 1:
+                bad.append(n)
+    ctx.require(nOk >= 1 and not bad, "R-PAIR", "results:ok-records-once", "every Ok path of update_state_with_service_result records exactly one state",
+                "update_state_with_service_result has Ok paths recording %s states" % bad)
+    for name in ("handle_service_error", "try_to_service_result"):
+        f = F.fn("prev_result_handler::" + name)
+        errs = []
+        for st in lib.enumerate_paths(f, max_paths=60000):
+            if lib.path_result(f, st) == "Err" and lib.path_calls(st, "track_service_result") and \
+                    not any(lib.is_from_residual(c.path) for c in st.calls):
+                errs.append(len(lib.path_calls(st, "TraceHandler::meet_call_end")))
+        ctx.require(errs and all(n == 1 for n in errs), "R-PAIR", "results:%s-records-failed" % name,
+                    "%s: the catchable failure path records exactly one Failed state" % name,
+                    "%s: failure paths record %s states" % (name, errs))
